@@ -15,7 +15,7 @@ from dask.dataframe.core import _concat, split_evenly
 
 PROPERTY = "C44"
 LEVEL = "other"
-BUDGET = {"quick": 150, "thorough": 1500}
+BUDGET = {"quick": 400, "thorough": 1500}
 CHUNK_PATHS = 40
 EXPLANATION = (
     "Bounded symbolic execution of the real RepartitionDivisions._layer (called on a duck-typed expression) with the old and "
@@ -40,7 +40,7 @@ ENUM = ["lengths of the division vectors", "n_old/n_new in RepartitionToFewer (f
 OUTSIDE = ["partition_size beyond the solver-enumerated small frames (memory measurement: no symbolic claim)", "freq"]
 BOUNDS = {
     "quick": dict(old_divisions="2..4 symbolic ints, strictly increasing except the last two may be equal", new_divisions="2..4", values="unbounded ints",
-                  force="both", tofewer="n_old in [2,10]", tomore="n_old in [1,3], n_new <= 8"),
+                  force="both", tofewer="n_old in [2,16]", tomore="n_old in [1,3], n_new <= 8"),
     "thorough": dict(old_divisions="2..5", new_divisions="2..6", values="unbounded ints", force="both", tofewer="n_old in [2,40]", tomore="n_old in [1,5], n_new <= 14"),
 }
 
@@ -191,7 +191,7 @@ def mk_fewer(hi):
         if r.npartitions != n_new or not r.compute(scheduler="sync").equals(df):
             raise Violation(f"repartition(npartitions={n_new}) of {n_old}: npartitions={r.npartitions}")
 
-    return Obligation(f"tofewer[n_old<={hi}]", setup, run, e2e=e2e, e2e_every=3)
+    return Obligation(f"tofewer[n_old<={hi}]", setup, run, e2e=e2e, e2e_every=1)
 
 
 def mk_more(old_hi, new_hi):
@@ -390,6 +390,12 @@ def mk_partition_size(maxparts, maxrows):
         if out.known_divisions:
             d = out.divisions
             e.check(len(frames) == len(d) - 1 and list(d) == sorted(d), f"divisions {d} inconsistent with {len(frames)} partitions")
+        # two size-repartitions of the SAME frame with different targets computed in one graph: each keeps its own rows
+        other = next(t for t in (40, 100, 400, 10 ** 6) if t != target)
+        out2 = ddf.repartition(partition_size=other)
+        g1, g2 = dask.compute(out, out2, scheduler="sync")
+        e.check(g1.equals(df) and g2.equals(df), f"repartition(partition_size={target}) and (partition_size={other}) of one frame computed together: "
+                                                 f"{len(g1)} and {len(g2)} rows instead of {n} (partition sizes {sizes})")
         return [len(f) for f in frames]
 
     return Obligation(f"partition_size[parts<={maxparts},rows<={maxrows}]", setup, run)
@@ -402,7 +408,7 @@ def obligations(tier):
             for nb in (2, 3, 4):
                 for force in (False, True):
                     obs.append(mk_div(na, nb, force))
-        obs += [mk_fewer(10), mk_more(3, 8), mk_split_evenly(30, 16), mk_interp(2, 5), mk_partition_size(3, 3)]
+        obs += [mk_fewer(16), mk_more(3, 8), mk_split_evenly(30, 16), mk_interp(2, 5), mk_partition_size(3, 3)]
     else:
         for na in (2, 3, 4, 5):
             for nb in (2, 3, 4, 5, 6):
